@@ -173,13 +173,16 @@ impl<'r> Out<'r> {
                             if self.coin() {
                                 out.push_str(&format!("\\u{:04x}", cp));
                             } else {
-                                out.push_str(&format!("\\u{{{:X}}}", cp));
+                                // leading zeros are legal in the braced form
+                                let zeros = if self.chance(1, 3) { "0".repeat(1 + (cp as usize % 3)) } else { String::new() };
+                                out.push_str(&format!("\\u{{{zeros}{:X}}}", cp));
                             }
                         } else if sur && self.coin() {
                             let v = cp - 0x10000;
                             out.push_str(&format!("\\u{:04X}\\u{:04X}", 0xD800 + (v >> 10), 0xDC00 + (v & 0x3FF)));
                         } else {
-                            out.push_str(&format!("\\u{{{:x}}}", cp));
+                            let zeros = if self.chance(1, 3) { "0".repeat(1 + (cp as usize % 2)) } else { String::new() };
+                            out.push_str(&format!("\\u{{{zeros}{:x}}}", cp));
                         }
                     } else {
                         out.push(c);
